@@ -8,12 +8,13 @@ CFG = dict(
               "translate_spec", "scaleAbout_spec", "scaleMesh_spec", "rotate_spec", "applyTRS_spec", "center_spec",
               "normalize_spec", "translate_post", "scaleAbout_post", "rotate_post", "rotate_unit_post", "applyTRS_post", "center_post", "normalize_post",
               "smoothAccum_sum", "smoothAccum_perm", "smoothNormals_values", "smoothNormalAt_unit", "smoothNormalAt_unreferenced", "smoothNormals_spec",
-              "flatAccum_last", "flatNormals_values", "normalized_idem", "flatNormals_spec", "lastFace_unwelded", "flatNormalAt_unwelded",
-              "laplacian_order_independent", "lapIter_any_enumeration", "lapUpdate_value", "lapSweepWith_succ", "lapSweepWith_untouched",
-              "neighbours_mem", "neighbours_nodup", "laplacian_spec",
-              "laplacian_frame", "smoothNormals_frame", "flatNormals_frame"],
+              "normalized_idem", "lastFace_unwelded", "flatNormalAt_unwelded",
+              "flatNormals_spec_nondegenerate", "lapUpdate_value_with_neighbours", "neighbours_ne_nil_of_edge", "laplacian_order_independent", "lapIter_any_enumeration", "neighbours_mem", "neighbours_nodup", "laplacian_frame", "smoothNormals_frame", "flatNormals_frame"],
+    # unfoldings of model definitions / statements over R that do not transfer to Go on the excluded float-only branches
+    helper_theorems=["laplacian_spec", "lapSweepWith_succ", "lapSweepWith_untouched", "flatNormals_spec", "flatNormals_values", "lapUpdate_value", "flatAccum_last"],
     streams=[dict(name="c03", n=dict(quick=400, thorough=40000),
-                  # LaplacianSmooth sums the neighbours in Go map order: compared within a tolerance
+                  # LaplacianSmooth sums the neighbours in Go map order: ONLY the smoothed attribute's values (line c03.op.laplacian) are compared
+                  # within a tolerance; shape (c03.op.laplacian_shape) and all other attributes (frame_spec) exactly
                   ulps={"c03.op.laplacian": (1 << 20, 1e-6)})],
     trusted=T_COMMON + [
         "hand-written pure models PolyVerif/Model/{Mesh,MeshOps}.lean of modeling/mesh.go and modeling/meshops/*.go; tied to the "
@@ -32,6 +33,14 @@ CFG = dict(
              "split parts: material identity is the *Material pointer in Go (model: a Nat id; the harness gives every material a distinct Name and compares by it, SetMaterial copies "
              "the struct so pointers differ after the split); a nil Material in a range makes SplitOnUniqueMaterials dereference nil (runtime panic) - the harness never generates nil "
              "materials; ranges shorter than the triangle list: index-out-of-range panic recovered by the harness and counted as rejection (model: none)",
+             "DEFINITIONAL (unfoldings of the model, listed as helper_theorems): laplacian_spec, lapSweepWith_succ, lapSweepWith_untouched (the recurrence is the definition), "
+             "flatAccum_last / flatNormals_values / flatNormals_spec and lapUpdate_value in their unconditional form over R. The content that transfers to Go: "
+             "flatNormals_spec_nondegenerate (no claim when the last face is degenerate: Go writes NaN), lapUpdate_value_with_neighbours (no claim for a neighbour-less vertex: Go writes NaN), "
+             "laplacian_order_independent, neighbours_mem, neighbours_nodup; the excluded float-only branches are forced by corpus cases on every run and counted "
+             "(smooth:nan-skip, flat:degenerate-last-face, lap:neighbourless)",
+             "weld_unweld concludes only the per-corner KEYS of the welded attribute (same survivors, same order): weaker than 'attribute content within its rounding cell' - the other "
+             "attributes of a corner come from the first VERTEX of the key class in weld m and from the first CORNER of the key class in weld (unweld m), and differ in general",
+             "neighbour list = the vertices joined to v by an edge of an index triple, each once; an index triple (v, v, w) makes v its OWN neighbour (Go's Link(v, v) and the model agree)",
              "crop_spec is for identity-indexed point clouds: CropFloat3Attribute ignores the incoming indices (observation, see notes/C03.md)",
              "the weld theorems hold for every key function; that the Go key is Vector3ToInt (with the platform-specific int(NaN)) is part of the driver, checked by correspondence only",
              "IEEE rounding of the transform maps; Tri.Area3D (keep decision passed to the model); SliceByPlane, ScaleAttributeAlongNormal, 2-D variants, "
@@ -42,7 +51,7 @@ CFG = dict(
         text="Lean 4 theorems for every payload type: full contracts - each the same decidable predicate the oracle evaluates on implementation output - for unweld (same corners, "
              "identity indices, exactly one vertex per index; idempotent), remove unreferenced (+ all referenced), flip (+ involution), to point cloud, append (concatenated corners, "
              "zero fill) and repeat, filter, crop (identity-indexed clouds), remove null faces, weld (survivors = triangles with three distinct keys; each corner carries the tuple of the "
-             "first vertex of its key class; every vertex referenced), weld-after-unweld (same surviving triangles and per-corner keys as weld), split by material (one part per distinct "
+             "first vertex of its key class; every vertex referenced), weld-after-unweld (same surviving triangles and per-corner KEYS as weld; other attributes differ: first vertex vs first corner of the key class), split by material (one part per distinct "
              "material in order of first appearance, each exactly its triangles); rejection branches as exact iff statements. Transforms: the FRAME (topology, indices, materials and every "
              "other attribute untouched) for set/modify/map, translate, scale, rotate, apply-TRS, centre, normalise, smooth/flat normals, Laplacian; the 'stated map' theorems name the "
              "applied function (definitional, tied to Go bit-for-bit); independent value theorems over R: translation keeps differences, scale-about-o fixes o and multiplies offsets, "
@@ -50,7 +59,7 @@ CFG = dict(
              "length 1; smooth normals = normalised SUM over incident corners of the face cross products, independent of the triangle order, unit or zero; flat normals = unit normal of "
              "the LAST visited face containing the vertex (order dependence stated; on unwelded meshes every corner gets its own face's normal whatever the order), normalize(1,1,1) for "
              "untouched vertices; Laplacian = ascending in-place sweeps of v + f(mean(neighbours) - v), independent of the order in which each neighbour SET is enumerated (Go map order), "
-             "neighbour list = vertices sharing an edge, each once. Tie: bit-exact comparison of the complete result mesh for 23 operations on generated meshes (6 topologies, attribute "
+             "neighbour list = vertices sharing an edge of an index triple, each once ((v,v,w) makes v its own neighbour); stated only for vertices with a neighbour / non-degenerate last faces: Go writes NaN otherwise (corpus cases). Tie: bit-exact comparison of the complete result mesh for 25 operations (Laplacian: shape and all other attributes exact, the smoothed attribute within 2^20 ulps / 1e-6 - Go's map-order summation is not bit-deterministic between runs) on generated meshes (6 topologies, attribute "
              "mixes over widths 1-4, shared/unreferenced/empty index patterns, material ranges of all shapes, non-finite values); contract, post-condition and recomputed-in-another-order "
              "value predicates on the implementation's outputs.",
         note="Trusted: Lean kernel + 3 axioms; harness; translator (Gen/Transform.lean). The value theorems for normals and Laplacian are over R about the model loops (no NaN, x/0 = 0): "
